@@ -108,6 +108,15 @@ def differs(a, e, tol):
         return ~((a == e) | (np.abs(a - e) <= tol) | np.isnan(e))
 
 
+def value_tol(m, L, n):
+    """relative tolerance for interpolated values: 1e-9, plus the conditioning of the weights - a
+    coordinate x is known to ulp(x), a weight is a coordinate difference divided by a cell size, so
+    far from the origin (|x| / dx of 1e5 .. 1e8) the weights of two correct evaluations differ by
+    about eps * |x| / dx"""
+    far = max(abs(m.geo_low[n]), abs(m.geo_high[n]))
+    return 1e-9 + 64 * 2.220446049250313e-16 * far / m.dx[L][n]
+
+
 def scale_of(e):
     f = np.abs(e[np.isfinite(e)])
     return max(1.0, float(f.max())) if f.size else 1.0
@@ -209,14 +218,13 @@ def positions(m, L, n, rng, per_class=3):
 
 
 def too_close_to_centre(m, L, n, pos):
-    """True when pos is within the tool's snapping tolerance of a cell centre of some level
-    without being (numerically) on it — the tool's deliberate np.isclose tolerance is not judged"""
+    """True when pos is within the tool's snapping tolerance (1e-6 cell since the repair of F35; a
+    margin of 100 is kept) of a cell centre of some level without being (numerically) on it -
+    whether such a plane is snapped onto the centre or interpolated is not judged"""
     for lv in range(L + 1):
         dx = m.dx[lv][n]
         t = (pos - m.geo_low[n]) / dx - 0.5
-        d = abs(t - round(t)) * dx
-        c = m.geo_low[n] + (round(t) + 0.5) * dx
-        tol = 1e-8 + 1e-5 * abs(c)
-        if 1e-12 * max(1.0, abs(c)) < d < 50 * tol:
+        d = abs(t - round(t))
+        if 1e-9 < d < 1e-4:
             return True
     return False
